@@ -55,17 +55,45 @@
      * the front end HypervolumeCalculator (C13Disp.v: empty -> 0, 2-D sweep, 3-D sweep, HOY for 4 objectives, WFG
        otherwise) = hv_spec for every number of objectives except 4 (C13_hv_dispatcher_correct; the HOY algorithm is
        a parameter of the model, C13_hv_dispatcher_correct_given_hoy).
-   Modelled, not verified: nonDominatedSort inside limitSet is taken to compute rank_list (proved for
-   fastNonDominatedSort: C13_fast_sort; the dispatcher and the DC sort are compared on every run, and the limit set the
-   code computes is compared with the model's on every H query).
+     * the divide-and-conquer sort (C13Dc.v, model of DCNonDominatedSort.h as coded: lexicographic std::sort + std::unique +
+       std::lower_bound, ndHelperA with its cases |S| < 2, |S| = 2, k = 2 -> sweepA, 'all values of objective k equal',
+       splitA by the median as coded (twice the median is kept, the two candidate splits and the balance test),
+       ndHelperB with its double-loop base case, sweepB, the tests maxL <= minH / minL <= maxH, splitB; the std::map T of
+       the two sweeps) = rank_list for EVERY point set of uniform dimension >= 2 (ties in every objective, duplicates,
+       median ties): C13_dc_sort.  The recursions are structural on a fuel argument; the theorem includes that the fuel
+       the entry point supplies is enough (every recursive call has fewer points or fewer objectives; both sides of a
+       split are non-empty because the doubled median lies between twice the minimum and twice the maximum).
+       Invariants: ndHelperB(L,H,k) sets frt(h) := max(frt(h), 1 + max{frt(l) : l in L, l <= h on the first k
+       objectives}); ndHelperA(S,k) makes frt the solution of frt'(x) = max(frt(x), 1 + max{frt'(y) : y in S dominates x
+       on the first k objectives}) (C13_dc_helperA_spec, C13_dc_helperB_spec).
+     * the front end nonDominatedSort (NonDominatedSort.h: n = 0 -> nothing, DC sort if m = 2 or n > 5000 or
+       log(n)/log(3) < m + 1, else fast sort) = rank_list for every dimension >= 2 WHICHEVER algorithm the switch selects
+       (C13_nds_front_end_any_choice: the choice is a parameter, so the rounding of std::log at n = 3^(m+1) is covered;
+       C13_nds_front_end for the extracted instance n < 3^(m+1)).  Hence limitSet of the WFG recursion computed with the
+       ranks of the front end is the limit set of the WFG model (C13_wfg_limit_set_via_front_end): the former caveat
+       "nonDominatedSort inside limitSet is taken to compute rank_list" is discharged for >= 2 objectives.
+     * HypervolumeContributionMD with reference point (C13ContribMd.v: for every i the set without point i is restricted
+       (component-wise maximum with point i, nonDominatedSort = the front end model, swap-with-last compaction of the
+       rank-1 points as coded), contribution = box volume - hypervolume of the restricted set by the front end
+       HypervolumeCalculator = hv_dispatch) = contrib_spec = hv_spec S - hv_spec (S without i) for EVERY point set below
+       the reference point (dominated points and duplicates included, no mutual non-domination needed), every number of
+       objectives >= 2 except 4 (C13_contrib_md_correct; for 4 objectives given HOY = hv_spec:
+       C13_contrib_md_correct_given_hoy); the entries returned by smallest / largest (std::sort by the contribution, first
+       k / last k reversed) are k entries with distinct indices, each carrying the contribution of its index, and their
+       values are the k smallest / largest contributions (C13_contrib_md_smallest, C13_contrib_md_largest; for every list
+       of (contribution, index) pairs: C13_select_smallest_entries, C13_select_largest_entries).
+       Modelled, not verified: exp(sum(log(ref - p))) is the product of the edge lengths (compared at 1e-9).
    NOT PROVED, only compared on every run (tools/c13.py, exact integer arithmetic):
-     * DC sort, the sorting / contribution front ends, HOY, 3-D/MD contributions, contributions and subset selection WITHOUT reference
-       point: differential test of the C++ against rank_list / hv_spec / contrib_spec (extracted) and against an
-       independent Python monitor. *)
+     * the contribution front end, HOY, 3-D contributions, contributions and subset selection WITHOUT reference
+       point: differential test of the C++ against hv_spec / contrib_spec (extracted) and against an
+       independent Python monitor.
+     * DC sort for fewer than 2 objectives: the code reads obj[-1] (ndHelperB with k = 0); outside the property's range. *)
 From Coq Require Import List ZArith Permutation Sorted.
 From SharkV Require Import ListAux C13Model C13Proofs C13ProofsFast C13ProofsContrib.
 From SharkV Require Import C13Wfg C13WfgProofs C13Sweep3d C13Sweep3dProofs.
 From SharkV Require Import C13Hssp C13HsspEnvProofs C13HsspProofs C13HsspFrontProofs C13Disp C13DispProofs.
+From SharkV Require Import C13Dc C13DcAuxProofs C13DcSweepProofs C13DcProofs.
+From SharkV Require Import C13ContribMd C13ContribMdProofs.
 Import ListNotations.
 
 (* ---- dominance *)
@@ -405,3 +433,157 @@ Theorem C13_hv_dispatcher_example :
   hv_spec [3; 3; 3; 3; 3]%Z [[0; 2; 1; 2; 0]; [1; 1; 1; 1; 1]; [2; 0; 2; 0; 2]; [1; 1; 1; 1; 1]]%Z.
 Proof. exact hv_dispatch_example. Qed.
 Print Assumptions C13_hv_dispatcher_example.
+
+(* ---- divide-and-conquer sort (DCNonDominatedSort.h) and the sorting front end (NonDominatedSort.h) *)
+Theorem C13_dc_sort :
+  forall d S, 2 <= d -> same_dim d S -> dc_nds S = rank_list S.
+Proof. exact dc_nds_eq_rank_list. Qed.
+Print Assumptions C13_dc_sort.
+
+Theorem C13_dc_sort_satisfies_definition :
+  forall d S, 2 <= d -> same_dim d S -> is_rank_assignment S (dc_nds S).
+Proof. exact dc_nds_is_rank. Qed.
+Print Assumptions C13_dc_sort_satisfies_definition.
+
+(* the two recursive procedures, for every lexicographically sorted array of distinct vectors [pts] of dimension m,
+   every strictly increasing index lists and every assignment of positive front indices; the fuel bound is part of
+   the statement *)
+Theorem C13_dc_helperB_spec :
+  forall pts m, 2 <= m ->
+    (forall i, i < length pts -> length (P pts i) = m) ->
+    (forall i j, i < j < length pts -> lexlt (P pts i) (P pts j)) ->
+  forall fuel L H k f,
+    2 <= k <= m -> incr pts L -> incr pts H -> (forall x, In x H -> ~ In x L) -> fpos pts f ->
+    length L + length H + k <= fuel ->
+    length (helperB pts fuel L H k f) = length f /\
+    (forall x, ~ In x H -> frt_of (helperB pts fuel L H k f) x = frt_of f x) /\
+    forall h, In h H ->
+      frt_of (helperB pts fuel L H k f) h =
+      Nat.max (frt_of f h) (list_max (map (fun l => frt_of f l + 1) (filter (fun l => wdomb pts k l h) L))).
+Proof. exact helperB_correct. Qed.
+Print Assumptions C13_dc_helperB_spec.
+
+Theorem C13_dc_helperA_spec :
+  forall pts m, 2 <= m ->
+    (forall i, i < length pts -> length (P pts i) = m) ->
+    (forall i j, i < j < length pts -> lexlt (P pts i) (P pts j)) ->
+  forall fuel S k f,
+    2 <= k <= m -> incr pts S -> distinctk pts k S -> fpos pts f -> length S + k <= fuel ->
+    length (helperA pts fuel S k f) = length f /\
+    (forall x, ~ In x S -> frt_of (helperA pts fuel S k f) x = frt_of f x) /\
+    forall x, In x S ->
+      frt_of (helperA pts fuel S k f) x =
+      Nat.max (frt_of f x)
+        (list_max (map (fun y => frt_of (helperA pts fuel S k f) y + 1) (filter (fun y => sdomb pts k y x) S))).
+Proof. exact helperA_correct. Qed.
+Print Assumptions C13_dc_helperA_spec.
+
+(* std::sort + std::unique produce the strictly sorted array of the distinct vectors; std::lower_bound finds them *)
+Theorem C13_dc_sort_unique :
+  forall m S, same_dim m S ->
+    StronglySorted lexlt (dc_uniq (dc_sort S)) /\ forall x, In x (dc_uniq (dc_sort S)) <-> In x S.
+Proof. exact dc_uniq_sort_spec. Qed.
+Print Assumptions C13_dc_sort_unique.
+
+Theorem C13_nds_front_end_any_choice :
+  forall choose d S, 2 <= d -> same_dim d S -> nds_front_gen choose S = rank_list S.
+Proof. exact nds_front_gen_eq_rank_list. Qed.
+Print Assumptions C13_nds_front_end_any_choice.
+
+Theorem C13_nds_front_end :
+  forall d S, 2 <= d -> same_dim d S -> nds_front S = rank_list S.
+Proof. exact nds_front_eq_rank_list. Qed.
+Print Assumptions C13_nds_front_end.
+
+Theorem C13_wfg_limit_set_via_front_end :
+  forall choose arr d S p, 2 <= d -> length p = d -> same_dim d S ->
+    arr (nd_front_via (nds_front_gen choose) (map (fun q => pmax q p) S)) = limit_set arr S p.
+Proof. exact limit_set_via_front_end. Qed.
+Print Assumptions C13_wfg_limit_set_via_front_end.
+
+Theorem C13_dc_sort_example :
+  same_dim 3 [[1; 5; 2]; [2; 3; 3]; [2; 3; 3]; [4; 4; 4]; [3; 1; 5]; [1; 4; 5]; [2; 2; 3]; [6; 0; 0]; [4; 4; 5]; [1; 5; 2]]%Z /\
+  dc_nds [[1; 5; 2]; [2; 3; 3]; [2; 3; 3]; [4; 4; 4]; [3; 1; 5]; [1; 4; 5]; [2; 2; 3]; [6; 0; 0]; [4; 4; 5]; [1; 5; 2]]%Z
+    = [1; 2; 2; 3; 1; 1; 1; 1; 4; 1] /\
+  rank_list [[1; 5; 2]; [2; 3; 3]; [2; 3; 3]; [4; 4; 4]; [3; 1; 5]; [1; 4; 5]; [2; 2; 3]; [6; 0; 0]; [4; 4; 5]; [1; 5; 2]]%Z
+    = [1; 2; 2; 3; 1; 1; 1; 1; 4; 1] /\
+  nds_front [[0; 1; 1; 0]; [1; 0; 0; 1]; [1; 1; 1; 1]; [0; 1; 1; 0]; [2; 1; 1; 1]; [0; 0; 1; 1]]%Z = [1; 1; 2; 1; 3; 1].
+Proof. exact dc_nds_example. Qed.
+Print Assumptions C13_dc_sort_example.
+
+(* ---- HypervolumeContributionMD.h (with reference point) and the k-smallest / k-largest selection *)
+Theorem C13_contrib_md_correct :
+  forall hoy ref S, 2 <= length ref -> length ref <> 4 -> below_ref ref S ->
+    contribs_md_inst hoy ref S = combine (contribs_spec ref S) (seq 0 (length S)).
+Proof. exact (fun hoy ref S H2 H4 HB => contribs_md_inst_correct hoy ref S H2 (or_introl H4) HB). Qed.
+Print Assumptions C13_contrib_md_correct.
+
+Theorem C13_contrib_md_correct_given_hoy :
+  forall hoy ref S, 2 <= length ref ->
+    (forall ref S, length ref = 4 -> below_ref ref S -> hoy ref S = hv_spec ref S) -> below_ref ref S ->
+    contribs_md_inst hoy ref S = combine (contribs_spec ref S) (seq 0 (length S)).
+Proof. exact (fun hoy ref S H2 H4 HB => contribs_md_inst_correct hoy ref S H2 (or_intror H4) HB). Qed.
+Print Assumptions C13_contrib_md_correct_given_hoy.
+
+(* for every hypervolume routine and every sorting routine that are correct on the restricted sets *)
+Theorem C13_contrib_md_correct_any_parts :
+  forall hv ranks ref S i,
+    (forall L, same_dim (length ref) L -> ranks L = rank_list L) ->
+    (forall S', below_ref ref S' -> hv ref S' = hv_spec ref S') ->
+    below_ref ref S -> i < length S ->
+    contrib_md hv ranks ref S i = contrib_spec ref S i.
+Proof. exact contrib_md_correct. Qed.
+Print Assumptions C13_contrib_md_correct_any_parts.
+
+Theorem C13_restrict_set_is_limit_set :
+  forall ranks S p, ranks (map (fun q => pmax q p) S) = rank_list (map (fun q => pmax q p) S) ->
+    Permutation (restrict_set ranks S p) (nd_front (map (fun q => pmax q p) S)).
+Proof. exact restrict_set_perm. Qed.
+Print Assumptions C13_restrict_set_is_limit_set.
+
+Theorem C13_select_smallest_entries :
+  forall vals l k, Permutation l (combine vals (seq 0 (length vals))) -> k <= length vals ->
+    map fst (smallest_kv k l) = smallest_k k vals /\ length (smallest_kv k l) = k /\
+    NoDup (map snd (smallest_kv k l)) /\
+    forall v i, In (v, i) (smallest_kv k l) -> i < length vals /\ v = nth i vals 0%Z.
+Proof. exact smallest_kv_spec. Qed.
+Print Assumptions C13_select_smallest_entries.
+
+Theorem C13_select_largest_entries :
+  forall vals l k, Permutation l (combine vals (seq 0 (length vals))) -> k <= length vals ->
+    map fst (largest_kv k l) = largest_k k vals /\ length (largest_kv k l) = k /\
+    NoDup (map snd (largest_kv k l)) /\
+    forall v i, In (v, i) (largest_kv k l) -> i < length vals /\ v = nth i vals 0%Z.
+Proof. exact largest_kv_spec. Qed.
+Print Assumptions C13_select_largest_entries.
+
+Theorem C13_contrib_md_smallest :
+  forall hoy ref S k, 2 <= length ref ->
+    (length ref <> 4 \/ forall ref S, length ref = 4 -> below_ref ref S -> hoy ref S = hv_spec ref S) ->
+    below_ref ref S -> k <= length S ->
+    let res := smallest_kv k (contribs_md_inst hoy ref S) in
+    map fst res = smallest_k k (contribs_spec ref S) /\ length res = k /\ NoDup (map snd res) /\
+    forall v i, In (v, i) res -> i < length S /\ v = contrib_spec ref S i.
+Proof. exact md_smallest_correct. Qed.
+Print Assumptions C13_contrib_md_smallest.
+
+Theorem C13_contrib_md_largest :
+  forall hoy ref S k, 2 <= length ref ->
+    (length ref <> 4 \/ forall ref S, length ref = 4 -> below_ref ref S -> hoy ref S = hv_spec ref S) ->
+    below_ref ref S -> k <= length S ->
+    let res := largest_kv k (contribs_md_inst hoy ref S) in
+    map fst res = largest_k k (contribs_spec ref S) /\ length res = k /\ NoDup (map snd res) /\
+    forall v i, In (v, i) res -> i < length S /\ v = contrib_spec ref S i.
+Proof. exact md_largest_correct. Qed.
+Print Assumptions C13_contrib_md_largest.
+
+Theorem C13_contrib_md_example :
+  let S := [[0; 3; 2; 1; 1]; [1; 2; 3; 0; 1]; [2; 1; 0; 3; 1]; [1; 2; 3; 0; 1]; [3; 0; 1; 2; 0]]%Z in
+  let ref := [4; 4; 4; 4; 2]%Z in
+  below_ref ref S /\
+  contribs_md_inst (fun _ _ => 0%Z) ref S = [(12%Z, 0); (0%Z, 1); (12%Z, 2); (0%Z, 3); (36%Z, 4)] /\
+  contribs_spec ref S = [12; 0; 12; 0; 36]%Z /\
+  smallest_kv 2 (contribs_md_inst (fun _ _ => 0%Z) ref S) = [(0%Z, 3); (0%Z, 1)] /\
+  largest_kv 2 (contribs_md_inst (fun _ _ => 0%Z) ref S) = [(36%Z, 4); (12%Z, 0)].
+Proof. exact contrib_md_example. Qed.
+Print Assumptions C13_contrib_md_example.
